@@ -5,6 +5,12 @@ import GbVerif.Model.JitSp
 import GbVerif.Model.JitStatus
 import GbVerif.Model.JitWrites
 import GbVerif.Proofs.Enum
+import GbVerif.Proofs.TemplateWf
+import GbVerif.Proofs.X86Ip
+import GbVerif.Proofs.X86Sp
+import GbVerif.Proofs.X86Status
+import GbVerif.Proofs.X86Writes
+import GbVerif.Proofs.X86Safe
 /-!
 C01 — translated blocks have the same architectural effect as the interpreter.
 (Structural facts first; the x86 model and per-template simulation lemmas are added by `Proofs/X86*.lean`.)
@@ -149,5 +155,218 @@ theorem write_count_cb : ∀ b1, b1 < 2^8 → writesOkCb b1 = true :=
 /-- non-vacuity: CALL NZ writes 0 or 2 bytes, BIT 0,(HL) none, RES 0,(HL) one, LD (nn),SP two -/
 example : JitWrites.jitWrites (Gen.emitOp 0xc4) = some [0, 2] ∧ JitWrites.jitWrites (Gen.emitCb 0x46) = some [0] ∧
     JitWrites.jitWrites (Gen.emitCb 0x86) = some [1] ∧ JitWrites.jitWrites (Gen.emitOp 0x08) = some [2] := by decide +kernel
+
+
+/-! ### the four bookkeeping facts as statements about runs
+
+Each analysis above is an instance of the generic path walk `JitPaths.paths`; `X86.paths_sound` proves once, by
+induction over the walk, that it covers every execution of the code on the x86 model (`Model/X86Sem.lean`) for any
+relation the transfer function carries, and `Proofs/X86Ip/Sp/Status/Writes.lean` show that for each transfer function
+(frame lemmas over every modelled instruction and the bus-call helper; the arithmetic of `add`/`sub`/16-bit `inc`/`dec`/
+`and 0xffff`/`rol`/`ror` by 8; the symbolic host stack).  Instantiated at all 501 templates, whose offsets the kernel
+checks well-formed (`Proofs/TemplateWf.lean`): from ANY machine state with 16 registers, over ANY bus behaviour. -/
+
+/-- **ip_advance on executions**: every complete run of the template of an instruction that does not end its block
+leaves r13 = r13 + encoded length (mod 2^64) -/
+theorem ip_run_unprefixed (b0 : Nat) (hb : b0 < 2^8) (hne : (Gen.emitOp b0).isEmpty = false)
+    (hend : Gen.isBlockEnd (Gen.decode b0 0 0).1 = false) :
+    ∃ code, decodeCode (Gen.emitOp b0) = some code ∧
+    ∀ (β : Type) (B : Interp.BusOps β) (fuel : Nat) (s s' : St β), s.r.size = 16 → s.pc = 0 →
+      run B code (bytesOf (Gen.emitOp b0)) fuel s = .ok s' →
+      (get s' 13).toNat = ((get s 13).toNat + (Gen.decode b0 0 0).2.1) % 2 ^ 64 := by
+  obtain ⟨code, hdec, hok, h0⟩ := offsetsWf_parts (offsetsWf_op hb hne)
+  have h := ip_advance_unprefixed b0 hb
+  unfold ipOkOp at h
+  simp only [hne, Bool.false_eq_true, if_false, hend] at h
+  have hC : JitIp.jitIp (Gen.emitOp b0) = some [(Gen.decode b0 0 0).2.1] := by simpa using h
+  refine ⟨code, hdec, ?_⟩
+  intro β B fuel s s' hsz hpc hrun
+  obtain ⟨l, hl, he⟩ := jitIp_sound B _ code _ hdec hok hC fuel s s' hsz (by rw [hpc, h0]) hrun
+  rw [List.mem_singleton.mp hl] at he
+  exact he
+
+theorem ip_run_cb (b1 : Nat) (hb : b1 < 2^8) :
+    ∃ code, decodeCode (Gen.emitCb b1) = some code ∧
+    ∀ (β : Type) (B : Interp.BusOps β) (fuel : Nat) (s s' : St β), s.r.size = 16 → s.pc = 0 →
+      run B code (bytesOf (Gen.emitCb b1)) fuel s = .ok s' →
+      (get s' 13).toNat = ((get s 13).toNat + (Gen.decode 0xcb b1 0).2.1) % 2 ^ 64 := by
+  obtain ⟨code, hdec, hok, h0⟩ := offsetsWf_parts (offsetsWf_cb b1 hb)
+  have h := ip_advance_cb b1 hb
+  unfold ipOkCb at h
+  have hC : JitIp.jitIp (Gen.emitCb b1) = some [(Gen.decode 0xcb b1 0).2.1] := by simpa using h
+  refine ⟨code, hdec, ?_⟩
+  intro β B fuel s s' hsz hpc hrun
+  obtain ⟨l, hl, he⟩ := jitIp_sound B _ code _ hdec hok hC fuel s s' hsz (by rw [hpc, h0]) hrun
+  rw [List.mem_singleton.mp hl] at he
+  exact he
+
+/-- **sp_delta on executions**: every complete run of the template of any instruction but the three that load SP with a
+computed value changes the low 16 bits of r12 by one of the changes the interpreter model makes to SP -/
+theorem sp_run_unprefixed (b0 : Nat) (hb : b0 < 2^8) (hne : (Gen.emitOp b0).isEmpty = false)
+    (hnot : (b0 == 0x31 || b0 == 0xe8 || b0 == 0xf9) = false) :
+    ∃ code C, decodeCode (Gen.emitOp b0) = some code ∧ JitSp.interpSp (Gen.decode b0 0 0).1 (Gen.decode b0 0 0).2.1 = some C ∧
+    ∀ (β : Type) (B : Interp.BusOps β) (fuel : Nat) (s s' : St β), s.r.size = 16 → s.pc = 0 →
+      run B code (bytesOf (Gen.emitOp b0)) fuel s = .ok s' →
+      ∃ l ∈ C, (get s' 12).toNat % 65536 = ((get s 12).toNat + l) % 65536 := by
+  obtain ⟨code, hdec, hok, h0⟩ := offsetsWf_parts (offsetsWf_op hb hne)
+  have h := sp_delta_unprefixed b0 hb
+  unfold spOkOp at h
+  simp only [hne, Bool.false_eq_true, if_false] at h
+  cases hj : JitSp.jitSp (Gen.emitOp b0) with
+  | none => rw [hj] at h; simp only [] at h; rw [hnot] at h; cases h
+  | some C =>
+    rw [hj] at h
+    have hi : JitSp.interpSp (Gen.decode b0 0 0).1 (Gen.decode b0 0 0).2.1 = some C := (by simpa using h : some C = _).symm
+    refine ⟨code, C, hdec, hi, ?_⟩
+    intro β B fuel s s' hsz hpc hrun
+    exact jitSp_sound B _ code C hdec hok hj fuel s s' hsz (by rw [hpc, h0]) hrun
+
+theorem sp_run_cb (b1 : Nat) (hb : b1 < 2^8) :
+    ∃ code, decodeCode (Gen.emitCb b1) = some code ∧
+    ∀ (β : Type) (B : Interp.BusOps β) (fuel : Nat) (s s' : St β), s.r.size = 16 → s.pc = 0 →
+      run B code (bytesOf (Gen.emitCb b1)) fuel s = .ok s' →
+      (get s' 12).toNat % 65536 = (get s 12).toNat % 65536 := by
+  obtain ⟨code, hdec, hok, h0⟩ := offsetsWf_parts (offsetsWf_cb b1 hb)
+  have hC : JitSp.jitSp (Gen.emitCb b1) = some [0] := by simpa using sp_delta_cb b1 hb
+  refine ⟨code, hdec, ?_⟩
+  intro β B fuel s s' hsz hpc hrun
+  obtain ⟨l, hl, he⟩ := jitSp_sound B _ code _ hdec hok hC fuel s s' hsz (by rw [hpc, h0]) hrun
+  rw [List.mem_singleton.mp hl, Nat.add_zero] at he
+  exact he
+
+/-- **status_class on executions**: from a state whose status byte is of class normal (a block starts with r14 = 0),
+every complete run of the template leaves in r14b a status of a class the interpreter model returns for it -/
+theorem status_run_unprefixed (b0 : Nat) (hb : b0 < 2^8) (hne : (Gen.emitOp b0).isEmpty = false) :
+    ∃ code C, decodeCode (Gen.emitOp b0) = some code ∧ JitStatus.interpStatus (Gen.decode b0 0 0).1 (Gen.decode b0 0 0).2.1 = some C ∧
+    ∀ (β : Type) (B : Interp.BusOps β) (fuel : Nat) (s s' : St β), s.r.size = 16 → s.pc = 0 →
+      JitStatus.statusClass (r14b s) = 0 → run B code (bytesOf (Gen.emitOp b0)) fuel s = .ok s' →
+      JitStatus.statusClass (r14b s') ∈ C := by
+  obtain ⟨code, hdec, hok, h0⟩ := offsetsWf_parts (offsetsWf_op hb hne)
+  have h := status_class_unprefixed b0 hb
+  unfold statusOkOp at h
+  simp only [hne, Bool.false_eq_true, if_false, Bool.and_eq_true] at h
+  cases hj : JitStatus.jitStatus (Gen.emitOp b0) with
+  | none => rw [hj] at h; exact absurd h.1 (by simp)
+  | some C =>
+    rw [hj] at h
+    have hi : JitStatus.interpStatus (Gen.decode b0 0 0).1 (Gen.decode b0 0 0).2.1 = some C := (by simpa using h.2 : some C = _).symm
+    refine ⟨code, C, hdec, hi, ?_⟩
+    intro β B fuel s s' hsz hpc hcl hrun
+    exact jitStatus_sound B _ code C hdec hok hj fuel s s' hsz (by rw [hpc, h0]) hcl hrun
+
+theorem status_run_cb (b1 : Nat) (hb : b1 < 2^8) :
+    ∃ code, decodeCode (Gen.emitCb b1) = some code ∧
+    ∀ (β : Type) (B : Interp.BusOps β) (fuel : Nat) (s s' : St β), s.r.size = 16 → s.pc = 0 →
+      JitStatus.statusClass (r14b s) = 0 → run B code (bytesOf (Gen.emitCb b1)) fuel s = .ok s' →
+      JitStatus.statusClass (r14b s') = 0 := by
+  obtain ⟨code, hdec, hok, h0⟩ := offsetsWf_parts (offsetsWf_cb b1 hb)
+  have hC : JitStatus.jitStatus (Gen.emitCb b1) = some [0] := by simpa using status_class_cb b1 hb
+  refine ⟨code, hdec, ?_⟩
+  intro β B fuel s s' hsz hpc hcl hrun
+  exact List.mem_singleton.mp (jitStatus_sound B _ code _ hdec hok hC fuel s s' hsz (by rw [hpc, h0]) hcl hrun)
+
+/-- **write_count on executions**: over any bus with a counter of its byte writes, every complete run of the template
+performs one of the numbers of byte writes the interpreter model performs for that instruction -/
+theorem writes_run_unprefixed (b0 : Nat) (hb : b0 < 2^8) (hne : (Gen.emitOp b0).isEmpty = false) :
+    ∃ code C, decodeCode (Gen.emitOp b0) = some code ∧ JitWrites.interpWrites (Gen.decode b0 0 0).1 (Gen.decode b0 0 0).2.1 = some C ∧
+    ∀ (β : Type) (B : Interp.BusOps β) (fuel : Nat) (s s' : St (β × Nat)), s.r.size = 16 → s.pc = 0 →
+      run (counted B) code (bytesOf (Gen.emitOp b0)) fuel s = .ok s' →
+      ∃ l ∈ C, s'.bus.2 = s.bus.2 + l := by
+  obtain ⟨code, hdec, hok, h0⟩ := offsetsWf_parts (offsetsWf_op hb hne)
+  have h := write_count_unprefixed b0 hb
+  unfold writesOkOp at h
+  simp only [hne, Bool.false_eq_true, if_false, Bool.and_eq_true] at h
+  cases hj : JitWrites.jitWrites (Gen.emitOp b0) with
+  | none => rw [hj] at h; exact absurd h.1 (by simp)
+  | some C =>
+    rw [hj] at h
+    have hi : JitWrites.interpWrites (Gen.decode b0 0 0).1 (Gen.decode b0 0 0).2.1 = some C := (by simpa using h.2 : some C = _).symm
+    refine ⟨code, C, hdec, hi, ?_⟩
+    intro β B fuel s s' hsz hpc hrun
+    exact jitWrites_sound B _ code C hdec hok hj fuel s s' hsz (by rw [hpc, h0]) hrun
+
+theorem writes_run_cb (b1 : Nat) (hb : b1 < 2^8) :
+    ∃ code C, decodeCode (Gen.emitCb b1) = some code ∧ JitWrites.interpWrites (Gen.decode 0xcb b1 0).1 (Gen.decode 0xcb b1 0).2.1 = some C ∧
+    ∀ (β : Type) (B : Interp.BusOps β) (fuel : Nat) (s s' : St (β × Nat)), s.r.size = 16 → s.pc = 0 →
+      run (counted B) code (bytesOf (Gen.emitCb b1)) fuel s = .ok s' →
+      ∃ l ∈ C, s'.bus.2 = s.bus.2 + l := by
+  obtain ⟨code, hdec, hok, h0⟩ := offsetsWf_parts (offsetsWf_cb b1 hb)
+  have h := write_count_cb b1 hb
+  unfold writesOkCb at h
+  simp only [Bool.and_eq_true] at h
+  cases hj : JitWrites.jitWrites (Gen.emitCb b1) with
+  | none => rw [hj] at h; exact absurd h.1 (by simp)
+  | some C =>
+    rw [hj] at h
+    have hi : JitWrites.interpWrites (Gen.decode 0xcb b1 0).1 (Gen.decode 0xcb b1 0).2.1 = some C := (by simpa using h.2 : some C = _).symm
+    refine ⟨code, C, hdec, hi, ?_⟩
+    intro β B fuel s s' hsz hpc hrun
+    exact jitWrites_sound B _ code C hdec hok hj fuel s s' hsz (by rw [hpc, h0]) hrun
+
+/-! ### "control returns to the emulator with the host process intact", per template, on executions -/
+
+/-- the host discipline of `X86Wf.absStep` (plus: no `[rsp+d]` access straddles two slots) holds on every path of every
+template and every path ends with a balanced stack — the same walk `JitPaths.paths` as above -/
+theorem host_discipline_unprefixed : ∀ b0, b0 < 2^8 → ((Gen.emitOp b0).isEmpty || JitHost.hostOk (Gen.emitOp b0) == some [0]) = true :=
+  forall_lt_of_allRange (fun b0 => (Gen.emitOp b0).isEmpty || JitHost.hostOk (Gen.emitOp b0) == some [0]) 8 (by decide +kernel)
+
+theorem host_discipline_cb : ∀ b1, b1 < 2^8 → (JitHost.hostOk (Gen.emitCb b1) == some [0]) = true :=
+  forall_lt_of_allRange (fun b1 => JitHost.hostOk (Gen.emitCb b1) == some [0]) 8 (by decide +kernel)
+
+/-- what holds of every run of the template `t` on the x86 model, from any state with 16 registers at pc 0 over any bus:
+a complete run hands back the host stack exactly as it found it (same slots, same contents) and rbp untouched, and a run
+with more fuel than the template has instructions never stops for any reason but the panic of a bus access — it never
+pops below its frame, touches a stack slot it did not push, calls through anything but the five bus helpers with the
+memory base in rdi, lands between two instructions, leaves the template, or loops -/
+def HostIntact (t : List Nat) : Prop :=
+  ∃ code, decodeCode t = some code ∧
+    ∀ (β : Type) (B : Interp.BusOps β) (fuel : Nat) (s : St β), s.r.size = 16 → s.pc = 0 →
+      (∀ s', run B code (bytesOf t) fuel s = .ok s' → s'.stack = s.stack ∧ get s' 5 = get s 5) ∧
+      (∀ e, code.length < fuel → run B code (bytesOf t) fuel s = .error e → isBus e)
+
+theorem hostIntact_of (t : List Nat) (hwf : offsetsWf t = true) (hh : (JitHost.hostOk t == some [0]) = true) : HostIntact t := by
+  obtain ⟨code, hdec, hok, h0⟩ := offsetsWf_parts hwf
+  have hC : JitHost.hostOk t = some [0] := by simpa using hh
+  refine ⟨code, hdec, ?_⟩
+  intro β B fuel s hsz hpc
+  exact ⟨fun s' hrun => hostOk_sound B t code _ hdec hok hC fuel s s' hsz (by rw [hpc, h0]) hrun,
+         fun e hf hrun => hostOk_safe B t code _ hdec hok hC fuel s e hsz (by rw [hpc, h0]) hf hrun⟩
+
+/-- **host_intact on executions** (all 245 unprefixed templates) -/
+theorem host_intact_run_unprefixed (b0 : Nat) (hb : b0 < 2^8) (hne : (Gen.emitOp b0).isEmpty = false) :
+    HostIntact (Gen.emitOp b0) := by
+  have h := host_discipline_unprefixed b0 hb
+  rw [hne, Bool.false_or] at h
+  exact hostIntact_of _ (offsetsWf_op hb hne) h
+
+/-- **host_intact on executions** (all 256 CB-prefixed templates) -/
+theorem host_intact_run_cb (b1 : Nat) (hb : b1 < 2^8) : HostIntact (Gen.emitCb b1) :=
+  hostIntact_of _ (offsetsWf_cb b1 hb) (host_discipline_cb b1 hb)
+
+/-- non-vacuity of the fault clause: on a bus whose writes panic, PUSH BC does stop — with the bus panic, nothing else -/
+def panicBus : Interp.BusOps Unit := ⟨fun _ _ => .ok 0, fun _ _ _ => .error (.overflow "test")⟩
+example : (match decodeCode (Gen.emitOp 0xc5) with
+    | some code => (match run panicBus code (bytesOf (Gen.emitOp 0xc5)) 400
+          { r := #[0,0,0x1234,0,0,0,0,ptrVal 512,0,0,0,0,0xc000,0x150,0,7], bus := (), stack := [1,2] } with
+        | .error (.bus _) => true
+        | _ => false)
+    | none => false) = true := by decide +kernel
+
+
+/-! non-vacuity of the run-level theorems: templates do run to completion on the model from a state that meets the
+hypotheses (16 registers, pc = 0, r14b = 0, memory base in rdi), over a counting bus: PUSH BC (PC+1, SP−2, two byte writes),
+CALL NZ taken (SP−2, two writes) and not taken (PC+3, nothing written), HALT (status class 2), POP BC (SP+2) -/
+def exSt (f : Nat) : St (Unit × Nat) :=
+  { r := #[BitVec.ofNat 64 f,0,0x1234,0,0,0,0,ptrVal 512,0,0,0,0,0xc000,0x150,0,7], bus := ((), 0), stack := [1,2] }
+def exAfter (b0 f : Nat) : Option (Nat × Nat × Nat × Nat) :=
+  match decodeCode (Gen.emitOp b0) with
+  | none => none
+  | some code => match run (counted JitCycles.nullBus) code (bytesOf (Gen.emitOp b0)) 400 (exSt f) with
+    | .ok s' => some ((get s' 13).toNat, (get s' 12).toNat % 65536, r14b s', s'.bus.2)
+    | .error _ => none
+example : (exSt 0).r.size = 16 ∧ (exSt 0).pc = 0 ∧ JitStatus.statusClass (r14b (exSt 0)) = 0 := by decide
+example : exAfter 0xc5 0 = some (0x150 + 1, 0xc000 - 2, 0, 2) := by decide +kernel
+example : exAfter 0xc4 0x00 = some (0, 0xc000 - 2, 0, 2) ∧ exAfter 0xc4 0x80 = some (0x150 + 3, 0xc000, 0, 0) := by decide +kernel
+example : exAfter 0x76 0 = some (0x150 + 1, 0xc000, 2, 0) ∧ exAfter 0xc1 0 = some (0x150 + 1, 0xc000 + 2, 0, 0) := by decide +kernel
 
 end GbVerif.C01
